@@ -3,12 +3,10 @@
     decoder accepts every well-formed hybrid stream, whatever mix of run kinds,
     run lengths and group counts (PQ.RleDecProofs); PLAIN values decode from the
     concatenation of page sections (PQ.PlainProofs); optional thrift fields are
-    carried by the decoder (PQ.MetaProofs).  The file-level statement over the
-    choice-driven foreign writer [Foreign.foreign_file] (any run segmentation,
-    page splits, codecs, optional metadata) is PQ.ForeignProofs.foreign_read_ok
-    and is added here when it lands. *)
+    carried by the decoder (PQ.MetaProofs); and the file-level theorem over the
+    choice-driven foreign writer [Foreign.foreign_file] (PQ.ForeignProofs). *)
 From Coq Require Import List NArith ZArith.
-From PQ Require Import Bytes Bitpack RleSpec Rle BitpackProofs RleSpecProofs RleDecProofs MetaTypes Thrift Meta MetaProofs.
+From PQ Require Import Bytes Schema Bitpack RleSpec Rle BitpackProofs RleSpecProofs RleDecProofs MetaTypes Thrift Meta MetaProofs Reader Foreign ForeignProofs.
 Import ListNotations.
 Local Open Scope N_scope.
 
@@ -30,3 +28,39 @@ Theorem C04_any_footer_decodes : forall fm rest,
   file_meta_ok fm = true -> dec_file_meta (enc_file_meta fm ++ rest) = Some (fm, rest).
 Proof. exact dec_enc_file_meta. Qed.
 Print Assumptions C04_any_footer_decodes.
+
+(** The reader returns exactly the records from every file the foreign writer
+    can produce for them: every segmentation of every level stream into RLE
+    runs (any length >= 1) and bit-packed runs (any group count, any padding
+    value), every split of every column into pages at record boundaries
+    (independently per column), every assignment of the three codecs to
+    columns, statistics absent / current / deprecated fields too, CRC,
+    created_by, key/value metadata, encoding_stats, any of the three
+    file_offset conventions and either total_byte_size convention.
+    [choices_ok] only asks for supported codecs; [fsizes_ok] is the int32 size
+    limits of the format. *)
+Theorem C04_foreign_read_ok :
+  forall (compress : Z -> bytes -> bytes) (decompress : Z -> bytes -> option bytes),
+  (forall c x, In c [CODEC_UNCOMPRESSED; CODEC_SNAPPY; CODEC_GZIP] -> decompress c (compress c x) = Some x) ->
+  (forall x, compress CODEC_UNCOMPRESSED x = x) ->
+  forall fs fc batches,
+  fshape_ok fs -> Forall (fbatch_ok fs) batches -> choices_ok fc -> fc_inject fc = None ->
+  fsizes_ok compress fs fc batches ->
+  read_all decompress fs (foreign_file compress fs fc batches) =
+  {| o_open_ok := true;
+     o_rows := Z.of_nat (length (concat batches));
+     o_nexts := N.of_nat (length (concat batches));
+     o_err := false; o_panic := false;
+     o_recs := concat batches |}.
+Proof. exact foreign_read_ok. Qed.
+Print Assumptions C04_foreign_read_ok.
+
+(** the segmentation itself: whatever the choices, well-formed runs of the levels plus < 8 padding values *)
+Theorem C04_segment_ok : forall fuel w choices pad ls,
+  (length ls <= fuel)%nat -> Forall (fun v => v < 2 ^ w) ls -> nlen ls < 2 ^ 63 ->
+  exists padding,
+    runs_values (segment fuel w choices pad ls) = ls ++ padding /\ (length padding < 8)%nat /\
+    Forall (wf_run w) (segment fuel w choices pad ls) /\
+    Forall RleDecProofs.run_small (segment fuel w choices pad ls).
+Proof. exact segment_ok. Qed.
+Print Assumptions C04_segment_ok.
